@@ -88,7 +88,10 @@ def run(prop, tier, seed):
         rep.sample({"position": p[1], "string": p[2], "expected_wire": p[5]})
     rep.assumptions += ["alphabet: ' \" \\\\ n LF { } % a e-acute; payload strings call a harmless counter injected into builtins (__v) if they are ever executed",
                         "named-tuple field names and dataclass field names must be identifiers and cannot carry arbitrary strings (not a position)"]
-    return rep.finish({"exhaustive": True, "rule": "9 positions x all strings of length <= MaxLen over a 10-character adversarial alphabet + 6 payloads; non-trivial = non-empty string"})
+    # sibling Literal types whose strings differ only in non-word characters, inside configured classes
+    from harness.checks import conf_props
+    conf_props.run_into(rep, "C16", tier, seed)
+    return rep.finish({"exhaustive": False, "rule": "9 positions x all strings of length <= MaxLen over a 10-character adversarial alphabet + 6 payloads; non-trivial = non-empty string"})
 
 
 def replay(rec, path):
